@@ -667,6 +667,13 @@ def rule_trim(ctx, trim=True):
             raise AnalysisError("splitter %s has %d returns" % (key, len(rets)))
         ret = rets[0]
         trimmed, why, positional = _tokens_trimmed(ret, local, env)
+        if key in ("SPACE", "TAB"):
+            merged = isinstance(ret, ast.Call) and isinstance(ret.func, ast.Attribute) and ret.func.attr == "findall"
+            ctx.check(merged, "DATA.SPLIT", site + ":runs", fn, ret,
+                      "%s splitting treats a run of delimiters as one separator (regex tokens are non-empty), as the fast "
+                      "engine does" % key,
+                      "the %s splitter is `%s`: consecutive delimiters yield empty tokens (phantom columns), whereas the fast "
+                      "engine treats any run of blanks/tabs as one separator" % (key, unparse(ret)))
         if key == "COMMA":
             ctx.check(positional, "DATA.SPLIT", site + ":positional", fn, ret,
                       "COMMA splitting is positional: every field, empty ones included, keeps its column",
@@ -868,3 +875,109 @@ def rule_wrap_tokens(ctx):
                   "; ".join(problems))
     # wrapped lines come from twrapper.wrap(<the whole depth step>)
     ctx.floor("WR.WRAP-TOKENS", 1)
+
+
+def rule_null_flat(ctx):
+    """NULL.FLAT: the list of numeric null values handed to the reference engine (applied to the flat token array, i.e.
+    to every column including the index) is exactly what get_substitutions returned - the header NULL never enters it"""
+    p = ctx.p
+    r = get_resolver(p)
+    fr = p.func(READ)
+    cfg = build_cfg(p, fr)
+    prov = Provenance(cfg)
+    nullvars = _null_var_defs(fr)
+    # the variable passed as value_null_subs
+    names = set()
+    calls = []
+    for node in cfg.nodes:
+        if node.ast is None or node.kind != "stmt":
+            continue
+        for c in walk_expr_shallow(node.ast):
+            if isinstance(c, ast.Call) and any(t.qual == NORMAL for t in r.callees(fr, c)[0]):
+                a = next((k.value for k in c.keywords if k.arg == "value_null_subs"), c.args[3] if len(c.args) > 3 else None)
+                calls.append((node.id, c, a))
+                if isinstance(a, ast.Name):
+                    names.add(a.id)
+    site = READ + "#value-null-subs"
+    problems = []
+    for nid, c, a in calls:
+        if a is None:
+            problems.append("the reference engine is called without the numeric null list")
+            continue
+        atoms = prov.atoms(a, nid)
+        if not any(x[0] == "callname" and x[1] == "get_substitutions" for x in atoms):
+            problems.append("value_null_subs does not come from get_substitutions")
+        for x in atoms:
+            if x[0] == "attrname" and x[1] == "NULL":
+                problems.append("the ~Well NULL value flows into value_null_subs")
+    for sub in walk_shallow(fr.node):
+        if isinstance(sub, ast.Call) and isinstance(sub.func, ast.Attribute) and sub.func.attr in ("append", "extend", "insert") \
+                and isinstance(sub.func.value, ast.Name) and sub.func.value.id in names:
+            problems.append("`%s` adds to the numeric null list in read()" % unparse(sub))
+        if isinstance(sub, (ast.Assign, ast.AugAssign)):
+            targets = sub.targets if isinstance(sub, ast.Assign) else [sub.target]
+            for t in targets:
+                if isinstance(t, ast.Name) and t.id in names:
+                    v = sub.value
+                    if not (isinstance(v, ast.Call) and "get_substitutions" in ast.unparse(v.func)):
+                        vnames = {n.id for n in ast.walk(v) if isinstance(n, ast.Name)}
+                        if vnames & nullvars or isinstance(sub, ast.AugAssign) or vnames - names:
+                            problems.append("`%s` changes the numeric null list in read()" % unparse(sub))
+    ctx.check(not problems, "NULL.FLAT", site, fr, calls[0][1] if calls else fr.node,
+              "the numeric null list applied to the flat token array is get_substitutions' result, untouched; the header NULL "
+              "is only applied per column, behind the index guard",
+              "; ".join(dict.fromkeys(problems)) + ": values equal to NULL are then replaced in every column, the index included, "
+              "by the reference engine only")
+    ctx.floor("NULL.FLAT", 1)
+
+
+READ_SUBS_DOC = {
+    "comma-decimal-mark": [(r"(\d),(\d)", r"\1.\2")],
+    "run-on(-)": [(r"(\d)-(\d)", r"\1 -\2")],
+    "run-on(.)": [(r"-?\d*\.\d*\.\d*|NaN[\.-]\d+", " NaN NaN ")],
+}
+READ_POLICIES_DOC = {
+    "default": ["comma-decimal-mark", "run-on(-)", "run-on(.)"],
+}
+
+
+def rule_read_subs(ctx):
+    """DATA.READ-SUBS: the documented read substitutions (applied to every data line by the reference engine and the
+    sniffer) have the documented language and replacement, compared structurally"""
+    p = ctx.p
+    env = module_env(p, "defaults")
+    dmod = p.module("defaults")
+    fi = p.func("defaults.get_default_items")
+    try:
+        subs = env("READ_SUBS")
+        pols = env("READ_POLICIES")
+    except NotConst as e:
+        raise AnalysisError("cannot fold defaults.READ_SUBS / READ_POLICIES: %s" % e)
+    for key, want in READ_SUBS_DOC.items():
+        site = "defaults.READ_SUBS#%s" % key
+        got = subs.get(key)
+        problems = []
+        if got is None or len(got) != len(want):
+            problems.append("entry is %r" % (got,))
+        else:
+            for (gp, gr), (wp, wr) in zip(got, want):
+                pat = gp.pattern if isinstance(gp, Regex) else gp
+                flags = gp.flags if isinstance(gp, Regex) else 0
+                try:
+                    gt = rx.parse(pat, flags)
+                    gc = rx.canonical(rx.flatten(list(gt), flags), {v: k for k, v in gt.state.groupdict.items()})
+                    wt = rx.parse(wp)
+                    wc = rx.canonical(rx.flatten(list(wt)), {})
+                except Exception as e:  # noqa
+                    raise AnalysisError("cannot parse read substitution %r: %s" % (pat, e))
+                if gc != wc:
+                    problems.append("pattern %r is not the documented %r (e.g. a wider class before the '-' also splits the "
+                                    "exponent of 2.5e-03, so lasio cannot re-read its own %%e output)" % (pat, wp))
+                if gr != wr:
+                    problems.append("replacement %r is not the documented %r" % (gr, wr))
+        ctx.check(not problems, "DATA.READ-SUBS", site, fi, dmod.globals["READ_SUBS"][0],
+                  "read substitution %s has the documented pattern and replacement" % key, "%s: %s" % (key, "; ".join(problems)))
+    for key, want in READ_POLICIES_DOC.items():
+        ctx.check(pols.get(key) == want, "DATA.READ-SUBS", "defaults.READ_POLICIES#%s" % key, fi, dmod.globals["READ_POLICIES"][0],
+                  "read policy %r applies %s" % (key, want), "read policy %r is %r, documented %r" % (key, pols.get(key), want))
+    ctx.floor("DATA.READ-SUBS", 4)
